@@ -82,6 +82,7 @@ type Val struct {
 	Iter    *Cell // range iterator state
 	IterOf  *Val
 	NilIf   Term   // for a static pointer with P != nil: the condition under which it is nil (zero Term: never)
+	Src     ssa.Value // for ghost views: the SSA value a viewed variable currently is
 	Poison  string // merge of incompatible (dead) values: an error only if used
 	LValue  bool // produced by a contract expression: the address stands for the value stored there
 }
